@@ -364,6 +364,11 @@ func GenTypes(t *rapid.T, o *Opts) *Spec {
 		}
 	}
 	root.Files = []*File{{Name: "defs.go"}, {Name: "other.go"}}
+	if rapid.IntRange(0, 3).Draw(t, "siblingFileName") == 0 {
+		// the sibling file's name ends with the analysed file's name
+		root.Files[1].Name = "old_defs.go"
+		o.class("pkg:sibling_file_name_ends_with_analysed_file_name")
+	}
 	g.spec.Pkgs = []*Pkg{root}
 
 	// sub packages first (root refers to them)
